@@ -995,7 +995,7 @@ fn run_seg(ctx: &mut Ctx, op: &str, toks: &[&str]) -> Option<()> {
         });
     }
     let vs2 = vs.clone();
-    let res = catch_timeout(2, move || hk::segment_to_segment(min, max, order, &vs2));
+    let res = catch_timeout(10, move || hk::segment_to_segment(min, max, order, &vs2));
     let cells = match res {
         Caught::Ok(v) => v,
         Caught::Panic(m) => {
